@@ -11,7 +11,7 @@ import ast
 from typing import Dict, List, Optional, Set, Tuple
 
 from .. import tables
-from ..astx import TRUE, calls_in, f_atoms, f_show, find_assign, implies, linear, single_assign_value, src, walk_no_nested
+from ..astx import TRUE, calls_in, canon, f_atoms, f_show, find_assign, implies, linear, single_assign_value, src, walk_no_nested
 from ..core import ALL_PROPS, AnalysisError, Ctx, FuncInfo, rule
 from ..region import Unknown, minieval
 
@@ -795,7 +795,7 @@ def c03_11(ctx: Ctx):
     ft = None
     for a in [n for n in walk_no_nested(fi.node) if isinstance(n, ast.Assign) and isinstance(n.targets[0], ast.Name)]:
         t = src(a.value)
-        if "block1.outgoing_edges" in t and "_is_fallthrough_edge(edge)" in t and ("edge.target == block2" in t or "edge.target is block2" in t) and "not _is_fallthrough_edge" not in t:
+        if "block1.outgoing_edges" in t and "_is_fallthrough_edge(edge)" in t and (canon("edge.target == block2") in t or canon("edge.target is block2") in t) and "not _is_fallthrough_edge" not in t:
             ft = a.targets[0].id
     ctx.check(ft is not None, fi, fi.node, "are_joinable asks whether block1 falls through to block2",
               "are_joinable never establishes that block1 falls through to block2: an empty block2 (which carries the fallthrough to the rest of the original block after a patch "
